@@ -975,14 +975,22 @@ class DataFrameSchema(Generic[TDataObject], BaseSchema):
         )
 
         for col in keys_temp:
+            column = new_schema.columns[col]
             ind_list.append(
                 Index(
-                    dtype=new_schema.columns[col].dtype,
+                    dtype=column.dtype,
                     name=col,
-                    checks=new_schema.columns[col].checks,
-                    nullable=new_schema.columns[col].nullable,
-                    unique=new_schema.columns[col].unique,
-                    coerce=new_schema.columns[col].coerce,
+                    checks=column.checks,
+                    parsers=column.parsers,
+                    nullable=column.nullable,
+                    unique=column.unique,
+                    report_duplicates=column.report_duplicates,
+                    coerce=column.coerce,
+                    title=column.title,
+                    description=column.description,
+                    default=column.default,
+                    metadata=column.metadata,
+                    drop_invalid_rows=column.drop_invalid_rows,
                 )
             )
 
@@ -1115,60 +1123,46 @@ class DataFrameSchema(Generic[TDataObject], BaseSchema):
                 f"Keys {level_not_in_index} not found in schema columns!"
             )
 
-        new_index = (
-            None
-            if not level_temp or isinstance(new_schema.index, Index)
-            else new_schema.index.remove_columns(level_temp)
-        )
-        new_index = (
-            new_index
-            if new_index is None
-            else (
-                Index(
-                    dtype=new_index.columns[list(new_index.columns)[0]].dtype,
-                    checks=new_index.columns[
-                        list(new_index.columns)[0]
-                    ].checks,
-                    nullable=new_index.columns[
-                        list(new_index.columns)[0]
-                    ].nullable,
-                    unique=new_index.columns[
-                        list(new_index.columns)[0]
-                    ].unique,
-                    coerce=new_index.columns[
-                        list(new_index.columns)[0]
-                    ].coerce,
-                    name=new_index.columns[list(new_index.columns)[0]].name,
-                )
-                if (len(list(new_index.columns)) == 1)
-                and (new_index is not None)
-                else (
-                    None
-                    if (len(list(new_index.columns)) == 0)
-                    and (new_index is not None)
-                    else new_index
-                )
-            )
-        )
+        if isinstance(new_schema.index, MultiIndex):
+            moved = [
+                ix for ix in new_schema.index.indexes if ix.name in level_temp
+            ]
+            kept = [
+                ix
+                for ix in new_schema.index.indexes
+                if ix.name not in level_temp
+            ]
+        else:
+            moved, kept = [new_schema.index], []
+
+        new_index: Any
+        if not kept:
+            new_index = None
+        elif len(kept) == 1:
+            new_index = kept[0]
+        else:
+            new_index = new_schema.index.remove_columns(level_temp)
+            new_index.indexes = kept
 
         if not drop:
-            additional_columns: Dict[str, Any] = (
-                {col: new_schema.index.columns.get(col) for col in level_temp}
-                if isinstance(new_schema.index, MultiIndex)
-                else {new_schema.index.name: new_schema.index}
-            )
             new_schema = new_schema.add_columns(
                 {
-                    k: Column(
+                    v.name: Column(
                         dtype=v.dtype,
                         parsers=v.parsers,
                         checks=v.checks,
                         nullable=v.nullable,
                         unique=v.unique,
+                        report_duplicates=v.report_duplicates,
                         coerce=v.coerce,
                         name=v.name,
+                        title=v.title,
+                        description=v.description,
+                        default=v.default,
+                        metadata=v.metadata,
+                        drop_invalid_rows=v.drop_invalid_rows,
                     )
-                    for (k, v) in additional_columns.items()
+                    for v in moved
                 }
             )
 
